@@ -1174,6 +1174,7 @@ func propC20(c *Ctx) string {
 	c20Switch(c, v, "C20")
 	c20Suback(c, v)
 	c20AckTokens(c, v)
+	c07ReqTokens(c, v, "C20")
 	c.NotDecide("correlation under pipelining and schedules at runtime (rests on FIFO ackQueue + single acker)", "custom backends that never call the ack", "the engine's connect timeout (timing)")
 	c.Assume("packet decoding yields one of the 14 concrete packet types (C01/HDR)")
 	return c20Explanation
@@ -1704,5 +1705,73 @@ func c20AckTokens(c *Ctx, v *vocab) {
 		}
 		r.Check(acker.Name+"@"+typ, bad == nil && n > 0, acker.Decl.Pos(), len(in.Traces),
 			"a path writes this acknowledgement without returning the token its request took: the token is lost, the request window shrinks for the rest of the connection", c.witness(bad)...)
+	}
+}
+
+// c07ReqTokens: the request windows. A publish token is taken only by the PUBLISH handler and a subscribe token only
+// by the SUBSCRIBE / UNSUBSCRIBE handlers; both are given back only by the goroutine that writes the acknowledgement
+// (acker) and put in by the connect handler's initial fill. A take anywhere else (for instance per stored packet on
+// resume) is never matched by a return: the window shrinks until the next request blocks and the client is killed by
+// the token timeout — the handshake does not terminate.
+func c07ReqTokens(c *Ctx, v *vocab, prop string) {
+	r := c.Rule(prop+"/REQTOKENS", "WHO", "publishTokens / subscribeTokens: taken only in the handlers of the requests they meter, returned only by the acker, filled only by the connect handler", 6)
+	conn := c.connectHandler(r)
+	pubH := c.handlerOf(r, "broker", "Publish")
+	subH := c.handlerOf(r, "broker", "Subscribe")
+	unsubH := c.handlerOf(r, "broker", "Unsubscribe")
+	var acker *FuncInfo
+	for _, fi := range c.P.LibFuncs("broker") {
+		if fi.Decl.Body == nil {
+			continue
+		}
+		for _, t := range c.traces(fi).Traces {
+			if t.has(recvOn(v.fAckQueue)) {
+				acker = fi
+			}
+		}
+	}
+	if conn == nil || pubH == nil || subH == nil || unsubH == nil || acker == nil {
+		r.Undecided("anchors", 0, "connect / publish / subscribe / unsubscribe handlers or the acker not identified")
+		return
+	}
+	type spec struct {
+		f    *types.Var
+		name string
+		take map[string]bool
+	}
+	for _, sp := range []spec{
+		{v.fPublishTokens, "publishTokens", map[string]bool{pubH.Name: true}},
+		{v.fSubscribeTokens, "subscribeTokens", map[string]bool{subH.Name: true, unsubH.Name: true}},
+	} {
+		give := map[string]bool{acker.Name: true, conn.Name: true}
+		for _, fi := range c.P.LibFuncs("broker") {
+			if fi.Decl.Body == nil {
+				continue
+			}
+			in := c.traces(fi)
+			h := &Interp{P: c.P, Info: fi.Pkg.TypesInfo}
+			takes, gives := 0, 0
+			seenT, seenG := map[ast.Node]bool{}, map[ast.Node]bool{}
+			for _, t := range in.Traces {
+				for i, e := range t.Ev {
+					if e.Kind == EvRecv && chanOnPath(h, t, i, e.Chan) == types.Object(sp.f) && !seenT[e.Node] {
+						seenT[e.Node] = true
+						takes++
+					}
+					if e.Kind == EvSend && chanOnPath(h, t, i, e.Chan) == types.Object(sp.f) && !seenG[e.Node] {
+						seenG[e.Node] = true
+						gives++
+					}
+				}
+			}
+			if takes > 0 {
+				r.Check(fi.Name+":take("+sp.name+")", sp.take[fi.Name], fi.Decl.Pos(), len(in.Traces),
+					fmt.Sprintf("%d take site(s) outside the handlers that the window meters: a token taken here is never given back", takes))
+			}
+			if gives > 0 {
+				r.Check(fi.Name+":give("+sp.name+")", give[fi.Name], fi.Decl.Pos(), len(in.Traces),
+					fmt.Sprintf("%d return site(s) outside the acker / the initial fill: the window grows beyond its configured size", gives))
+			}
+		}
 	}
 }
